@@ -39,7 +39,7 @@ JOBS = {
     "numpy": {"quick": [({"SECS": 1, "VARIETY": "full"}, 3, None), ({"SECS": 2, "VARIETY": "mini"}, 2, None)],
               "thorough": [({"SECS": 1, "VARIETY": "full"}, 4, None), ({"SECS": 2, "VARIETY": "thin"}, 8, None), ({"SECS": 3, "VARIETY": "mini"}, 8, None)]},
     "sphinx": {"quick": [({"SECS": 2, "VARIETY": "thin"}, 2, None), ({"SECS": 3, "VARIETY": "mini"}, 2, None)],
-               "thorough": [({"SECS": 2, "VARIETY": "full"}, 4, None), ({"SECS": 3, "VARIETY": "thin"}, 8, None), ({"SECS": 4, "VARIETY": "mini"}, 8, None)]},
+               "thorough": [({"SECS": 2, "VARIETY": "full"}, 4, None), ({"SECS": 3, "VARIETY": "slim"}, 8, None), ({"SECS": 4, "VARIETY": "mini"}, 8, None)]},
 }
 # no recorded defect is left (findings.d/C13.json: all three fixed in /repo): the strict equality ParsesBack is checked everywhere
 DEFECT_JOBS: dict = {}
